@@ -26,6 +26,7 @@ type c09Scenario struct {
 	Method string
 	GenSel bool
 	Second int // sync index at which a second template change arrives (-1 none)
+	Paths  bool // revisionHistory.fieldPaths = [spec.optional, spec.template], spec.optional never set (default: all of spec)
 }
 
 type c09Dev struct {
@@ -197,11 +198,16 @@ func TestVerifC09(t *testing.T) {
 					seconds = []int{-1, 0, 1, 2, 3}
 				}
 				for _, second := range seconds {
-					scIdx++
-					if !mc.Mine(scIdx) {
-						continue
+					for _, paths := range []bool{false, true} {
+						if paths && (second != -1 || n != maxN) {
+							continue
+						}
+						scIdx++
+						if !mc.Mine(scIdx) {
+							continue
+						}
+						c09Scenario1(r, c09Scenario{N: n, Method: method, GenSel: gs, Second: second, Paths: paths})
 					}
-					c09Scenario1(r, c09Scenario{N: n, Method: method, GenSel: gs, Second: second})
 				}
 			}
 		}
@@ -209,6 +215,10 @@ func TestVerifC09(t *testing.T) {
 }
 
 func c09Scenario1(r *mc.Report, sc c09Scenario) {
+	if sc.Paths {
+		rollFieldPaths = []string{"spec.optional", "spec.template"}
+	}
+	defer func() { rollFieldPaths = nil }()
 	x := newRollWorld(sc.N, false, "widgets", sc.Method, true, sc.GenSel)
 	opt := ccOptOf(x)
 	viol := func(dev interface{}, key, format string, a ...interface{}) {
